@@ -136,6 +136,9 @@ type VC struct {
 	failed    error
 	carved    bool // known-finding carve-outs are assumed as extra preconditions
 	ghostLocals map[string]*SType
+	usedAnchors map[*Clause]bool
+	refComps    map[string]int // components holding references: 1 = (Array Int Ref), 2 = (Array Int (Array Int Ref))
+	curArgs     map[string]binding // arg0, arg1, ... of the call being processed (for anchored ghost code)
 	opq         map[*Decl]*opaqueInfo
 	opqWork     []*opaqueInfo
 }
@@ -166,6 +169,7 @@ type loopInfo struct {
 	frameAllowed map[string][]Term
 	frameWhole   map[string]bool
 	framePre     *State
+	seen         string // component holding the seen-set of the map range driven by this loop
 }
 
 func (vc *VC) freshName(prefix string) string {
@@ -306,7 +310,35 @@ func (vc *VC) compEntry(name, sort string) Term {
 	vc.compSort[name] = sort
 	vc.compInit[name] = n
 	vc.assumeCompValid(n, sort, true)
+	vc.assumeRefsValid(name, n, n0next, true)
 	return n
+}
+
+const n0next = "H.next@0"
+
+// assumeRefsValid: every reference held in a (fresh or entry) component denotes an allocated object
+// (Go's memory safety): it is below the allocation counter of that moment.
+func (vc *VC) assumeRefsValid(name string, comp Term, next Term, global bool) {
+	var f Term
+	switch vc.refComps[name] {
+	case 1:
+		f = fmt.Sprintf("(forall ((r Int)) (! (< (select %s r) %s) :pattern ((select %s r))))", comp, next, comp)
+	case 2:
+		f = fmt.Sprintf("(forall ((r Int) (k Int)) (! (< (select (select %s r) k) %s) :pattern ((select (select %s r) k))))", comp, next, comp)
+	default:
+		return
+	}
+	if name == compNext {
+		return
+	}
+	if global {
+		if next == n0next {
+			vc.compEntry(compNext, sInt)
+		}
+		vc.assumeGlobal(f)
+	} else {
+		vc.assume(f)
+	}
 }
 
 // assumeCompValid states Go's type invariant for every slice held in a (fresh or entry) heap
@@ -346,16 +378,46 @@ const compNext = "H.next"
 
 func (vc *VC) next(st *State) Term { return vc.comp(st, compNext, sInt) }
 
+func isRefType(t types.Type) bool {
+	if isTypeParam(t) {
+		return false
+	}
+	switch t.Underlying().(type) {
+	case *types.Pointer, *types.Map, *types.Chan:
+		return true
+	}
+	return false
+}
+
+func (vc *VC) noteRef(name string, t types.Type, nested bool) {
+	if vc.refComps == nil {
+		vc.refComps = map[string]int{}
+	}
+	if isRefType(t) {
+		if nested {
+			vc.refComps[name] = 2
+		} else {
+			vc.refComps[name] = 1
+		}
+	}
+}
+
 func (vc *VC) fieldComp(st types.Type, f *types.Var) (string, string) {
-	return "H." + typeKey(st) + "." + f.Name(), "(Array Int " + vc.reg.sortOf(f.Type()) + ")"
+	n := "H." + typeKey(st) + "." + f.Name()
+	vc.noteRef(n, f.Type(), false)
+	return n, "(Array Int " + vc.reg.sortOf(f.Type()) + ")"
 }
 
 func (vc *VC) boxComp(t types.Type) (string, string) {
-	return "H.box." + typeKey(t), "(Array Int " + vc.reg.sortOf(t) + ")"
+	n := "H.box." + typeKey(t)
+	vc.noteRef(n, t, false)
+	return n, "(Array Int " + vc.reg.sortOf(t) + ")"
 }
 
 func (vc *VC) elemsComp(t types.Type) (string, string) {
-	return "H.elems." + typeKey(t), "(Array Int (Array Int " + vc.reg.sortOf(t) + "))"
+	n := "H.elems." + typeKey(t)
+	vc.noteRef(n, t, true)
+	return n, "(Array Int (Array Int " + vc.reg.sortOf(t) + "))"
 }
 
 func (vc *VC) mapComps(m *types.Map) (dom, val, dsort, vsort string) {
@@ -371,16 +433,13 @@ func (vc *VC) innerRef(st types.Type, field string, p Term) Term {
 	fn := innerFn(st, field)
 	out := sym("ys.outer." + fieldKey(st, field))
 	if !vc.reg.have[fn] {
-		vc.reg.decl(fn, fmt.Sprintf("(declare-fun %s (Int) Int)\n(declare-fun %s (Int) Int)", fn, out))
+		tag := vc.innerTag(fn)
+		// derived references are negative, injective (outer is the inverse), rooted at the enclosing
+		// object, and tagged by the field they denote
+		vc.reg.decl(fn, fmt.Sprintf("(declare-fun %s (Int) Int)\n(declare-fun %s (Int) Int)\n(assert (forall ((p Int)) (! (and (< (%s p) 0) (= (%s (%s p)) p) (= (ys.root (%s p)) %s) (= (ys.itag (%s p)) %d)) :pattern ((%s p)))))",
+			fn, out, fn, out, fn, fn, rootOf("p"), fn, tag, fn))
 	}
-	r := app(fn, p)
-	key := "inner:" + r
-	if _, ok := vc.uninterp[key]; !ok {
-		vc.uninterp[key] = r
-		vc.assumeGlobal(and(app("<", r, "0"), eq(app(out, r), p), eq(app("ys.root", r), rootOf(p)),
-			eq(app("ys.itag", r), intLit(int64(vc.innerTag(fn))))))
-	}
-	return r
+	return app(fn, p)
 }
 
 func (vc *VC) innerTag(fn string) int {
